@@ -478,6 +478,64 @@ func (g *gen) aliasAndFixed() []*StructDef {
 		}
 		mk(fmt.Sprintf("Wide%d", n), n == 256, fs...)
 	}
+	// twelve small clusters A{*B, *Leaf, list<*Leaf2>}, B{*A, string}: the inner definition B is complete (and could
+	// be published) long before the outer one has linked the fields that follow its back edge; each cluster can be
+	// used for the first time once per process, and a schedule world goes through several per run
+	for d := 0; d < 12; d++ {
+		a, b2, l1, l2 := fmt.Sprintf("PubA%d", d), fmt.Sprintf("PubB%d", d), fmt.Sprintf("PubLeaf%d", d), fmt.Sprintf("PubLeafX%d", d)
+		mk(l1, false, f(1, Default, I32), f(2, Default, String)).Cluster = 910 + d
+		mk(l2, d%2 == 0, f(1, Required, I64), f(2, Optional, String)).Cluster = 910 + d
+		mk(a, false,
+			&Field{ID: 1, Name: "F1", T: &T{K: Struct, S: b2, Ptr: true}},
+			&Field{ID: 2, Name: "F2", T: &T{K: Struct, S: l1, Ptr: true}},
+			&Field{ID: 3, Name: "F3", T: &T{K: List, Elem: &T{K: Struct, S: l2, Ptr: true}}},
+			f(4, Default, I32)).Cluster = 910 + d
+		mk(b2, false,
+			&Field{ID: 1, Name: "F1", T: &T{K: Struct, S: a, Ptr: true}, Req: Optional},
+			f(2, Default, String),
+			&Field{ID: 3, Name: "F3", T: &T{K: Map, Key: &T{K: I32}, Elem: &T{K: Struct, S: a, Ptr: true}}, Req: Optional}).Cluster = 910 + d
+	}
+	// hand-written definitions that contain themselves (a linked list, a tree): values of these can be nested
+	// hundreds or thousands of levels deep
+	mk("RecNode", false, f(1, Default, I32), f(2, Default, String),
+		&Field{ID: 3, Name: "F3", T: &T{K: Struct, S: "RecNode", Ptr: true}, Req: Optional}).Cluster = 900
+	mk("RecTree", true, f(1, Default, String),
+		&Field{ID: 2, Name: "F2", T: &T{K: List, Elem: &T{K: Struct, S: "RecTree", Ptr: true}}},
+		f(3, Optional, I64)).Cluster = 901
+	// many required fields in one definition: 64, 65 and 70 (one more than a machine word has bits)
+	for _, n := range []int{64, 65, 70} {
+		var fs []*Field
+		for i := 1; i <= n; i++ {
+			fs = append(fs, f(uint16(i*3), Required, []Kind{I32, I16, I64, Bool, String}[i%5]))
+		}
+		fs = append(fs, f(1, Optional, I32), f(2, Default, String))
+		mk(fmt.Sprintf("Req%dFields", n), n == 65, fs...)
+	}
+	mk("HoldReqFields", false,
+		&Field{ID: 1, Name: "F1", T: &T{K: Struct, S: "Req65Fields", Ptr: true}},
+		&Field{ID: 2, Name: "F2", T: &T{K: List, Elem: &T{K: Struct, S: "Req70Fields"}}, Req: Optional},
+		&Field{ID: 3, Name: "F3", T: &T{K: Map, Key: &T{K: I32}, Elem: &T{K: Struct, S: "Req64Fields", Ptr: true}}})
+	// a chain of 40 different definitions, each holding the next (by pointer, by value, in a list, in a map):
+	// nesting that is deep in the type, not only in the value
+	for i := 39; i >= 0; i-- {
+		fs := []*Field{f(1, Default, I32), f(2, Optional, String)}
+		if i < 39 {
+			next := fmt.Sprintf("Chain%02d", i+1)
+			var t *T
+			switch i % 4 {
+			case 0:
+				t = &T{K: Struct, S: next, Ptr: true}
+			case 1:
+				t = &T{K: Struct, S: next}
+			case 2:
+				t = &T{K: List, Elem: &T{K: Struct, S: next, Ptr: true}}
+			default:
+				t = &T{K: Map, Key: &T{K: I16}, Elem: &T{K: Struct, S: next, Ptr: true}}
+			}
+			fs = append(fs, &Field{ID: 3, Name: "F3", T: t})
+		}
+		mk(fmt.Sprintf("Chain%02d", i), i%7 == 0, fs...)
+	}
 	mk("FixedU", true, f(1, Default, I32), f(2, Required, I64), f(3, Default, Bool), f(4, Default, Double))
 	mk("FixedN", false, f(1, Default, I16), f(2, Required, I8), f(7, Default, I64))
 	mk("FixedOneU", true, f(3, Default, I64))
